@@ -28,8 +28,10 @@ SQ_METHODS = ['logistic', 'gaussian', 'exponential']
 @st.composite
 def _array(draw):
     n = draw(st.integers(1, 30))
-    kind = draw(st.sampled_from(['lattice', 'float', 'float', 'allequal', 'allzero']))
-    if kind == 'lattice':
+    kind = draw(st.sampled_from(['lattice', 'float', 'float', 'allequal', 'allzero', 'integer']))
+    if kind == 'integer':
+        vals = [float(v) for v in draw(st.lists(st.integers(0, 12), min_size=n, max_size=n))]
+    elif kind == 'lattice':
         vals = draw(st.lists(st.integers(0, 40).map(lambda k: k / 4.0), min_size=n, max_size=n))
     elif kind == 'float':
         v = st.one_of(st.just(0.0), st.floats(1e-3, 1e6, allow_nan=False), st.floats(1e-3, 10.0, allow_nan=False))
@@ -39,7 +41,7 @@ def _array(draw):
         vals = [c] * n
     else:
         vals = [0.0] * n
-    if kind in ('lattice', 'float') and n > 1:
+    if kind in ('lattice', 'float', 'integer') and n > 1:
         if draw(st.booleans()):
             vals[draw(st.integers(0, n - 1))] = 0.0
         if draw(st.booleans()):
@@ -57,6 +59,21 @@ def _array(draw):
 
 
 POS = st.one_of(st.sampled_from([0.25, 0.5, 1.0, 2.0, 4.0]), st.floats(0.01, 100.0, allow_nan=False))
+
+
+def _mk_array(case):
+    """The distances as an ndarray; integer-valued data is handed over with an integer dtype in half of the cases
+    (a distance matrix of counts / edit distances), and integer-valued parameters then as Python ints."""
+    import numpy as np
+    if case.get('int_dtype') and all(float(v).is_integer() for v in case['vals']):
+        return np.array([int(v) for v in case['vals']], dtype=np.int64).reshape(case['shape']), True
+    return np.array(case['vals'], dtype=float).reshape(case['shape']), False
+
+
+def _param(v, as_int):
+    if as_int and v is not None and float(v).is_integer():
+        return int(v)
+    return v
 QUANT = st.one_of(st.sampled_from([0.1, 0.25, 0.5, 0.75, 0.9]), st.floats(0.05, 0.95, allow_nan=False))
 
 
@@ -77,7 +94,7 @@ def d2s_case(draw):
     mname = draw(st.sampled_from([m, m, m.upper(), m.capitalize()]))
     return {'vals': vals, 'shape': shape, 'method': mname,
             'r': draw(st.one_of(st.none(), POS)), 'a': draw(st.one_of(st.none(), st.none(), POS)),
-            'cq': draw(_cq())}
+            'cq': draw(_cq()), 'int_dtype': draw(st.booleans())}
 
 
 @st.composite
@@ -89,7 +106,7 @@ def squash_case(draw):
                                  st.sampled_from([0.0, 1.0, 2.5]))),
             'base': draw(st.one_of(st.none(), st.none(), st.sampled_from([2.0, 10.0]),
                                    st.floats(1.01, 10.0, allow_nan=False))),
-            'keep_sign': draw(st.booleans()), 'cq': draw(_cq())}
+            'keep_sign': draw(st.booleans()), 'cq': draw(_cq()), 'int_dtype': draw(st.booleans())}
 
 
 def _cq_lib(cq):
@@ -145,9 +162,11 @@ def run_d2s(case):
     from dtaidistance import similarity
     res = Res()
     vals = case['vals']
-    D = np.array(vals, dtype=float).reshape(case['shape'])
+    D, is_int = _mk_array(case)
     m = case['method'].lower()
     r, a, cq = case['r'], case['a'], case['cq']
+    if is_int:
+        res.cls('dtype=int')
     derived = (r is None and m != 'reciprocal') or (m == 'reciprocal' and a is None and cq is not False)
     res.nontrivial = (len(set(vals)) >= 2 and 0.0 in vals) or derived
     res.cls('method=' + m, 'axes=%d' % len(case['shape']), 'cq' if cq is not False else 'nocq',
@@ -185,9 +204,9 @@ def run_d2s(case):
         return res
     kw = {'method': case['method'], 'cover_quantile': _cq_lib(cq)}
     if r is not None:
-        kw['r'] = r
+        kw['r'] = _param(r, is_int)
     if a is not None:
-        kw['a'] = a
+        kw['a'] = _param(a, is_int)
     with np.errstate(all='ignore'):
         got, exc = libcall(similarity.distance_to_similarity, D, return_params=True, **kw)
     tag = 'd2s:' + m
@@ -250,9 +269,11 @@ def run_squash(case):
     from dtaidistance import similarity
     res = Res()
     vals = case['vals']
-    X = np.array(vals, dtype=float).reshape(case['shape'])
+    X, is_int = _mk_array(case)
     m = case['method']
     r, x0, base, cq = case['r'], case['x0'], case['base'], case['cq']
+    if is_int:
+        res.cls('dtype=int')
     derived = r is None or (m == 'logistic' and x0 is None)
     res.nontrivial = (len(set(vals)) >= 2 and 0.0 in vals) or derived
     res.cls('method=' + m, 'cq' if cq is not False else 'nocq', 'derived' if derived else 'explicit',
@@ -290,7 +311,7 @@ def run_squash(case):
     kw = {'method': m, 'keep_sign': case['keep_sign'], 'cover_quantile': _cq_lib(cq)}
     for k in ('r', 'x0', 'base'):
         if case[k] is not None:
-            kw[k] = case[k]
+            kw[k] = _param(case[k], is_int)
     with np.errstate(all='ignore'):
         got, exc = libcall(similarity.squash, X, return_params=True, **kw)
     tag = 'squash:' + m
